@@ -59,7 +59,8 @@ def orders_upto(nparam, maxtot):
 class Problem:
     """H(lambda) = diag(E) + sum_k lambda_k H_k (+ optional second-order terms), split into blocks."""
 
-    def __init__(self, E, sub, nparam=1, hermitian=True, seed=0, fmt="dense", second_order=False, cplx=True):
+    def __init__(self, E, sub, nparam=1, hermitian=True, seed=0, fmt="dense", second_order=False, cplx=True, h0_dtype=complex):
+        self.h0_dtype = h0_dtype
         self.E = np.array(E, dtype=float if np.isrealobj(np.array(E)) else complex)
         self.sub = list(sub)
         self.n = len(E)
@@ -87,7 +88,7 @@ class Problem:
     def hamiltonian(self):
         conv = {"dense": lambda x: np.array(x), "sparse": lambda x: sparse.csr_array(x),
                 "sympy": lambda x: sympy.Matrix(np.asarray(x).shape[0], np.asarray(x).shape[1], lambda i, j: sympy.nsimplify(complex(np.asarray(x)[i, j]), rational=True))}[self.fmt]
-        d = {tuple([0] * self.nparam): conv(np.diag(self.E).astype(complex))}
+        d = {tuple([0] * self.nparam): conv(np.diag(self.E).astype(complex) if self.h0_dtype is complex else np.diag(self.E.real).astype(self.h0_dtype))}
         for o, m in self.terms.items():
             d[o] = conv(m)
         return d
@@ -234,6 +235,23 @@ def section_herm():
             for o in range(1, 4):
                 if np.abs(pb.assemble(U, (o,))).max() > 1e-9 or np.abs(pb.assemble(Ht, (o,)) - pb.H_order((o,))).max() > 1e-9:
                     fail("herm", "single block with a mask that eliminates nothing: U != 1 or H_tilde != H", order=o)
+    # H_0 supplied with an integer or real dtype (energy denominators must not be formed in integer arithmetic), dense and sparse,
+    # through subspace_indices, several blocks and the single-block default
+    for h0_dtype in (int, float, np.int32):
+        for fmt in ("dense", "sparse"):
+            for E, sub in (([0, 2, 5, 9], [0, 0, 1, 1]), ([0, 3, 5, 9], [0, 0, 0, 0]), ([1, 4, 4, 8, 11], [0, 1, 1, 1, 2])):
+                pb = Problem([float(x) for x in E], sub, seed=55, fmt=fmt, h0_dtype=h0_dtype)
+                nm = getattr(h0_dtype, "__name__", str(h0_dtype))
+                check_problem("herm", pb, 3, label=f"h0-dtype-{nm}/{fmt}/{E}/plain")
+                if pb.nb > 1:
+                    check_problem("herm", pb, 3, fully=tuple(range(pb.nb)), label=f"h0-dtype-{nm}/{fmt}/{E}/fullyall")
+    # energies of large magnitude whose spacing is far below their size but far above atol (a regular perturbation problem; relative
+    # closeness of two levels is not degeneracy)
+    for E, sub, fully in (([0.0, 200000.0, 200001.0], [0, 0, 0], ()), ([0.0, 200000.0, 200001.5, 300000.0], [0, 0, 0, 1], (0,)),
+                          ([1.0e6, 1.0e6 + 2.0, 5.0, 7.0], [0, 0, 1, 1], (0, 1))):
+        for fmt in ("dense", "sparse"):
+            pb = Problem(E, sub, seed=66, fmt=fmt)
+            check_problem("herm", pb, 2, fully=fully, tol=1e-13, label=f"large-energies/{E}/{fmt}")
     # chain of near-degeneracies with a large tolerance (kept pattern not transitive)
     pb = Problem([0.0, 0.1, 0.2, 1.0, 2.0], [0, 0, 0, 0, 0], seed=3)
     check_problem("herm", pb, 3, fully=(0,), atol=0.15, label="chain/atol0.15")
